@@ -88,7 +88,12 @@ func c07SqliteExpiry(x *runCtx, k lab.Kind, enc protocol.KeyEncoding) {
 	}
 	dns := "owner.lab"
 	addrs := []protocol.RvTO2Addr{{DNSAddress: &dns, Port: 8443, TransportProtocol: protocol.HTTPSTransport}}
-	input := fmt.Sprintf("%s/%s sqlite blob store, registration for 2 s", k.Name, enc)
+	input := fmt.Sprintf("%s/%s sqlite blob store, registered for 1 h, then again for 2 s", k.Name, enc)
+	// registered for an hour first, then again for two seconds: the later registration is the one that counts
+	long := &fdo.TO0Client{Vouchers: cw.back, OwnerKeys: cw.back, TTL: 3600}
+	if _, err := long.RegisterBlob(ctx, cw.w.Transport(nil), d.Cred.GUID, addrs); err != nil {
+		fatal("TO0 (sqlite): %v", err)
+	}
 	to0 := &fdo.TO0Client{Vouchers: cw.back, OwnerKeys: cw.back, TTL: 2}
 	t0 := time.Now()
 	if _, err := to0.RegisterBlob(ctx, cw.w.Transport(nil), d.Cred.GUID, addrs); err != nil {
